@@ -17,7 +17,6 @@ import (
 	col "github.com/craterdog/go-collection-framework/v4/collection"
 	stc "strconv"
 	sts "strings"
-	utf "unicode/utf8"
 )
 
 // CLASS ACCESS
@@ -123,6 +122,16 @@ func (v *parser_) ParseSource(source string) (collection any) {
 }
 
 // Private
+
+func (v *parser_) checkConversion(token TokenLike, err error) {
+	// A literal that cannot be represented is a syntax error, it must not be
+	// silently replaced with some other value.
+	if err != nil {
+		var message = v.formatError(token)
+		message += "The literal cannot be represented: " + err.Error() + "\n"
+		panic(message)
+	}
+}
 
 func (v *parser_) drainTokens() {
 	// The scanner closes the queue after the EOF token, so reading the unread
@@ -569,29 +578,35 @@ func (v *parser_) parseIntrinsic() (
 	token TokenLike,
 	ok bool,
 ) {
+	var err error
 	_, token, ok = v.parseToken(BooleanToken, "")
 	if ok {
-		intrinsic, _ = stc.ParseBool(token.GetValue())
+		intrinsic, err = stc.ParseBool(token.GetValue())
+		v.checkConversion(token, err)
 		return intrinsic, token, true
 	}
 	_, token, ok = v.parseToken(ComplexToken, "")
 	if ok {
-		intrinsic, _ = stc.ParseComplex(token.GetValue(), 128)
+		intrinsic, err = stc.ParseComplex(token.GetValue(), 128)
+		v.checkConversion(token, err)
 		return intrinsic, token, true
 	}
 	_, token, ok = v.parseToken(FloatToken, "")
 	if ok {
-		intrinsic, _ = stc.ParseFloat(token.GetValue(), 64)
+		intrinsic, err = stc.ParseFloat(token.GetValue(), 64)
+		v.checkConversion(token, err)
 		return intrinsic, token, true
 	}
 	_, token, ok = v.parseToken(HexadecimalToken, "")
 	if ok {
-		intrinsic, _ = stc.ParseUint(token.GetValue()[2:], 16, 64)
+		intrinsic, err = stc.ParseUint(token.GetValue()[2:], 16, 64)
+		v.checkConversion(token, err)
 		return intrinsic, token, true
 	}
 	_, token, ok = v.parseToken(IntegerToken, "")
 	if ok {
-		intrinsic, _ = stc.ParseInt(token.GetValue(), 10, 64)
+		intrinsic, err = stc.ParseInt(token.GetValue(), 10, 64)
+		v.checkConversion(token, err)
 		return intrinsic, token, true
 	}
 	_, token, ok = v.parseToken(NilToken, "")
@@ -602,17 +617,22 @@ func (v *parser_) parseIntrinsic() (
 	_, token, ok = v.parseToken(RuneToken, "")
 	if ok {
 		var matches = Scanner().MatchToken(RuneToken, token.GetValue())
-		var match, _ = stc.Unquote(matches.GetValue(1))
-		intrinsic, _ = utf.DecodeRuneInString(match)
+		var literal = matches.GetValue(1)
+		var tail string
+		intrinsic, _, tail, err = stc.UnquoteChar(literal[1:len(literal)-1], '\'')
+		if err == nil && len(tail) > 0 {
+			err = stc.ErrSyntax
+		}
+		v.checkConversion(token, err)
 		return intrinsic, token, true
 	}
 	_, token, ok = v.parseToken(StringToken, "")
 	if ok {
 		var matches = Scanner().MatchToken(StringToken, token.GetValue())
-		intrinsic, _ = stc.Unquote(matches.GetValue(1))
+		intrinsic, err = stc.Unquote(matches.GetValue(1))
+		v.checkConversion(token, err)
 		return intrinsic, token, true
 	}
-
 	// NOTE: ok may be true or false.
 	return intrinsic, token, ok
 }
